@@ -212,6 +212,16 @@ PROPS = {
              "interleaving to manifest - a static inventory finds the racing pair of sites without having to hit it.",
         note="Does not decide atomicity inside the C++ extension or DuckDB. Six known findings (registry, dataset_output, four operator "
              "class attributes used as scratch variables), three demonstrated with forced interleavings (triage/race_demo.py)."),
+    "C10": dict(
+        claimed=True, design="§3 C10",
+        technique="def-use provenance of structure objects from interpreter.visit() to the returned Dataset/Scalar; AST shape rule on the fetch projection; who-may-write rule over structure fields (execution pipeline) and reviewed-writer table for role/nullable",
+        text="Decides the structural clause of the property: run() returns the very structure objects its semantic pass (configured like "
+             "semantic_analysis()) produced; the fetch query projects the declared components in declared order (no physical-order "
+             "SELECT * when components are declared); nothing in the execution pipeline rewrites type/role/nullability/components of "
+             "those objects; an Identifier cannot be made nullable at or after construction. Does not decide value conformance, "
+             "identifier uniqueness or the at-most-one-datapoint clause (DuckDB evaluates the generated SQL).",
+        note="Structure fields are assumed to change only through attribute stores / dict mutation (no setattr tricks exist). Known "
+             "finding: fetch_result relabels Null-typed scalars from the DuckDB column type."),
 }
 
 NA_REASONS = {
